@@ -15,6 +15,7 @@ import IcyVerif.Drv.PalStream
 import IcyVerif.Drv.Palette
 import IcyVerif.Drv.Rect
 import IcyVerif.Drv.Rip
+import IcyVerif.Drv.Rows
 import IcyVerif.Drv.Sauce
 import IcyVerif.Drv.Sixel
 import IcyVerif.Drv.SixelLoad
@@ -45,6 +46,7 @@ def dispatch (line : String) : String :=
   | "palette" :: rest => Palette.handle rest
   | "rect" :: rest => Rect.handle rest
   | "rip" :: rest => Rip.handle rest
+  | "rows" :: rest => Rows.handle rest
   | "sauce" :: rest => Sauce.handle rest
   | "sixel" :: rest => Sixel.handle rest
   | "sixelload" :: rest => SixelLoad.handle rest
